@@ -61,6 +61,7 @@ type plCase struct {
 	// several workers: which datagram meets which definition is the scheduler's choice, so what such a phase publishes
 	// is not compared (it must not crash); the phase after it, decoded once everything has settled, is
 	Unjudged  []int          `json:"unjudged,omitempty"`
+	Siblings  bool           `json:"siblings,omitempty"` // the case ends with a flood of related exporters (see genPipeline)
 	Filter    []uint32       `json:"filter,omitempty"`
 	Exporters []wire.Hex     `json:"exporters"`
 	Phases    [][]plDatagram `json:"phases"`
@@ -68,7 +69,7 @@ type plCase struct {
 }
 
 const c12Rule = "case = protocol pipeline (ipfix | nf9 | nf5 | sflow), 1..16 real worker goroutines, UDP size (mostly 1500), 1..6 exporters, and phases: announce phases (each template key at most once) " +
-	"alternating with data phases of 20..800 datagrams (in a sixth of the IPFIX / NetFlow v9 cases a template is redefined while data of both definitions is in flight on all workers — that phase is not compared, the data that follows once it has settled is; in another sixth an announcement storm: 200..800 keys announced back to back and decoded by all workers at once, then data for every key) with strongly mixed sizes (tens of octets next to ~1400) and unique (exporter, sequence number), incl. identical template refreshes, unknown-template, truncated, corrupted, reserved-id, garbage and oversize datagrams; " +
+	"alternating with data phases of 20..800 datagrams (in a sixth of the IPFIX / NetFlow v9 cases a template is redefined while data of both definitions is in flight on all workers — that phase is not compared, the data that follows once it has settled is; in another sixth an announcement storm: 200..800 keys announced back to back and decoded by all workers at once, then data for every key; a sixth of all cases end with a flood of 1500..5000 small datagrams from two to four *sibling exporters* — the same host number at different sites, host numbers 64 apart, or neighbours — decoded by >= 4 workers at once, IPFIX / NetFlow v9 siblings using one template id with a definition of their own each) with strongly mixed sizes (tens of octets next to ~1400) and unique (exporter, sequence number), incl. identical template refreshes, unknown-template, truncated, corrupted, reserved-id, garbage and oversize datagrams; " +
 	"in half of the cases one or two OTHER protocols' pipelines run at the same time on self-contained cross traffic (own workers, pools, queues; their receive buffer size drawn independently), in a third workers are told to quit and are replaced while traffic flows (every 1st..50th datagram); " +
 	"injected exactly as the receive loop does (pooled buffer, copy, send on the real UDP channel), real MQ channels drained concurrently or, in half of the cases, only after the workers are joined (slow consumer: a message that aliases a reused buffer is then overwritten for certain), workers joined per phase; half of the cases run on the -race build of the driver; " +
 	"oracle = per phase the multiset of published payloads equals, byte for byte, the payloads obtained by decoding each datagram on its own in the harness against a replica cache holding the templates of earlier phases " +
@@ -609,6 +610,65 @@ func genPipeline(t *rapid.T, proto string, envs map[string]*wire.GenEnv, maxPhas
 		}
 		c.Phases = append(c.Phases, mixed)
 	}
+	// sibling exporters: two to four exporters whose addresses are related the way addresses in a network are (the
+	// same host number at every site, host numbers 64 apart, neighbours) send small datagrams at the same time, so
+	// that all workers decode datagrams of different exporters at the same moment for thousands of datagrams. Every
+	// published message must name the exporter its datagram came from and be decoded with that exporter's templates:
+	// anything a worker keeps per exporter (or per something derived from the address) must not leak to its siblings.
+	if !e2e && rapid.IntRange(0, 5).Draw(t, "siblings") == 0 {
+		c.Siblings = true
+		base := rapid.SliceOfN(rapid.Byte(), 4, 4).Draw(t, "sibbase")
+		nsib := rapid.IntRange(2, 4).Draw(t, "nsib")
+		sibKind := rapid.IntRange(0, 2).Draw(t, "sibkind")
+		first := len(c.Exporters)
+		for i := 0; i < nsib; i++ {
+			a := wire.Hex{base[0], base[1], base[2], base[3]}
+			switch sibKind {
+			case 0: // the same host number at every site
+				a[2] = base[2] + byte(i)
+			case 1: // host numbers 64 apart
+				a[3] = base[3] + byte(64*i)
+			default: // neighbours
+				a[3] = base[3] + byte(i)
+			}
+			c.Exporters = append(c.Exporters, a)
+		}
+		if c.Workers < 4 {
+			c.Workers = rapid.IntRange(4, 16).Draw(t, "sibworkers")
+		}
+		c.LazyDrain = false
+		sibDatagram := func(i int) []byte {
+			a := c.Exporters[first+i]
+			switch proto {
+			case "nf5":
+				rec := make([]byte, 48)
+				copy(rec, a)
+				rec[7], rec[19] = byte(i), 1
+				pk := wire.NF5Packet{Version: 5, Count: 1, UnixSecs: 1700000000, Seq: nextSeq(), EngID: byte(i), Recs: []wire.Hex{rec}}
+				return pk.Bytes()
+			case "sflow":
+				d := wire.SFDatagram{Agent: a, SubID: uint32(i), Seq: nextSeq(), Samples: []wire.SFSample{{Kind: "counter",
+					Counter: &wire.SFCounter{Seq: uint32(i), Recs: []wire.SFCounterRec{{Kind: "proc", Vals: []uint64{1, 2, 3, 4, uint64(i)}}}}}}}
+				return d.Bytes()
+			}
+			// self-contained, one template id for all siblings, a definition of its own per sibling
+			all := []wire.Field{{ID: 8, Len: 4, Type: wire.TIPv4}, {ID: 12, Len: 4, Type: wire.TIPv4}, {ID: 1, Len: 8, Type: wire.TUint64}, {ID: 2, Len: 8, Type: wire.TUint64}, {ID: 7, Len: 2, Type: wire.TUint16}}
+			vals := []wire.Hex{{a[0], a[1], a[2], a[3]}, {10, 8, byte(i), 2}, {0, 0, 0, 0, 0, 0, 0, byte(i)}, {0, 0, 0, 0, 0, 0, 1, byte(i)}, {0, byte(i)}}
+			tp := wire.Template{ID: 51000, Fields: all[:2+i]}
+			var m wire.Msg
+			m.Proto, m.Time, m.Domain, m.Count = proto, 1700000000, 7, 1
+			m.Seq = nextSeq()
+			m.Sets = []wire.Set{{Kind: "tpl", Tpls: []wire.Template{tp}}, {Kind: "data", Tpl: &tp, Recs: []wire.Record{{Vals: vals[:2+i]}}}}
+			return m.Bytes()
+		}
+		var flood []plDatagram
+		for i, n := 0, rapid.IntRange(1500, 5000).Draw(t, "sibn"); i < n; i++ {
+			flood = append(flood, plDatagram{Exp: first + i%nsib, Data: sibDatagram(i % nsib), Class: "valid"})
+		}
+		// thousands of publishing datagrams may outrun the queue consumer: sub-multiset oracle for this phase
+		c.Subset = append(c.Subset, len(c.Phases))
+		c.Phases = append(c.Phases, flood)
+	}
 	// boundary of the receive buffer: its size is set to the length of one of the case's own datagrams (or one
 	// octet less / more), so some datagrams fill the buffer exactly, some are cut by one octet, some just fit
 	if rapid.IntRange(0, 2).Draw(t, "exactfit") == 0 {
@@ -928,6 +988,7 @@ func runPipeline(prop string, c *plCase) (v verdict, sig string, err error) {
 	v.label(c.LazyDrain, "slow-consumer")
 	v.label(c.Verbose, "verbose-logging")
 	v.label(c.ExactFit, "udp-size-fitted-to-a-datagram")
+	v.label(c.Siblings, "sibling-exporters-flood")
 	if prop == "C13" {
 		v.NT = classMix
 	} else {
